@@ -263,6 +263,11 @@ def quadric_translation(db, cx):
         cx.require(fs, "anchor SurfaceTranslator::operator()(%s) (AST) not found" % cls)
         acc = dict(acc)
         acc[C + "Translation::translation"] = t
+        # semantics of the Translation helpers (their mutual inverse property is C12.1)
+        acc[C + "Translation::transform_up"] = lambda args: [as_p(args[0][i]) + t[i] for i in range(3)]
+        acc[C + "Translation::transform_down"] = lambda args: [as_p(args[0][i]) - t[i] for i in range(3)]
+        acc[C + "Translation::rotate_up"] = lambda args: list(args[0])
+        acc[C + "Translation::rotate_down"] = lambda args: list(args[0])
         res = interpret(fs[0], acc)
         ok = False
         d = "unexpected return value %r" % (res,)
